@@ -128,7 +128,7 @@ pub fn explore(ctx: &Ctx) {
     // two centuries for the first zone and 25 years for the others
     let mut plan: Vec<(usize, Vec<Method>, Vec<(NaiveDate, NaiveDate)>)> = vec![];
     if quick {
-        let mut r = vec![(ymd(2023, 1, 1), ymd(2024, 12, 31))];
+        let mut r = vec![(ymd(2020, 1, 1), ymd(2024, 12, 31))];
         r.extend(edge);
         plan.push((0, methods.clone(), r));
     } else {
